@@ -1,13 +1,692 @@
-//! C01 — not yet implemented
-use crate::core::{Ctx, Outcome};
-use serde_json::Value;
+//! C01 — Active-order tracking follows the documented order lifecycle.
+//!
+//! E-BFS to **fixpoint**, two layers:
+//!  (a) the real `Orders` table with two client order ids,
+//!  (b) a real 3-instrument / 2-exchange `EngineState` driven through `update_from_account`
+//!      (OrderSnapshot, OrderCancelled, full AccountSnapshot) and the `InFlightRequestRecorder`
+//!      (cids c0,c1 on instrument 1 / exchange 0, c2 on instrument 2 / exchange 1).
+//!
+//! Alphabet per cid: OpenSent (only while untracked: unique cids are the engine contract), CancelSent,
+//! Snap(OpenInFlight), Snap(Open t) for t in {1,2,3} with the fill level given by an *exchange
+//! consistent timeline* (fill level non-decreasing in exchange time; all 10 timelines per cid are
+//! enumerated as initial states), Snap(Cancelled t), Snap(FullyFilled), Snap(Expired),
+//! Snap(OpenFailed), CancelOk, CancelErr; layer (b) adds full account snapshots carrying one or two
+//! order reports. Every input is offered in every state, so duplicates, stale and out-of-order
+//! deliveries are all explored.
+//!
+//! Oracle: allowed-successor sets per (tracked state, input) written from the statement (R1..R6 of
+//! DESIGN.md §3 C01). The reference state is the projection of the implementation state, so a
+//! divergence is reported on the step that causes it and the search continues.
 
-pub fn run(_ctx: &Ctx) -> Outcome {
-    eprintln!("MACHINERY: C01 not implemented");
-    std::process::exit(2)
+use super::common::*;
+use crate::core::{Ctx, Outcome, hash_of};
+use crate::explore::bfs::{self, Model, Viol};
+use barter::engine::state::{
+    instrument::data::DefaultInstrumentMarketData,
+    global::DefaultGlobalData,
+    order::{Orders, in_flight_recorder::InFlightRequestRecorder, manager::OrderManager},
+    trading::TradingState,
+};
+use barter_execution::{
+    AccountEvent, AccountEventKind, AccountSnapshot, InstrumentAccountSnapshot,
+    error::{ApiError, OrderError},
+    order::{
+        Order, OrderKey, OrderKind, TimeInForce,
+        id::{ClientOrderId, OrderId},
+        request::{OrderRequestCancel, OrderRequestOpen, OrderResponseCancel, RequestCancel, RequestOpen},
+        state::{ActiveOrderState, CancelInFlight, Cancelled, InactiveOrderState, Open, OpenInFlight, OrderState},
+    },
+};
+use barter_instrument::{
+    Side, asset::AssetIndex, exchange::ExchangeIndex, index::IndexedInstruments,
+    instrument::InstrumentIndex,
+};
+use barter_integration::snapshot::Snapshot;
+use rust_decimal::Decimal;
+use serde::{Deserialize, Serialize};
+use serde_json::{Value, json};
+
+const QTY: u8 = 2; // order quantity; fill levels 0,1,2 (2 = nothing left to fill)
+
+#[derive(Debug, Clone, Copy, PartialEq, Eq, Hash, Serialize, Deserialize)]
+pub enum Kind {
+    InFlight,
+    Open,
+    Cancelling,
 }
 
-pub fn replay(_ctx: &Ctx, _case: &Value) {
-    eprintln!("MACHINERY: C01 not implemented");
-    std::process::exit(2)
+/// Projection of one tracked order: lifecycle kind + exchange-confirmed open data held (t, filled).
+#[derive(Debug, Clone, Copy, PartialEq, Eq, Hash, Serialize, Deserialize)]
+pub struct Proj {
+    kind: Kind,
+    meta: Option<(u8, u8)>,
+}
+
+#[derive(Debug, Clone, PartialEq, Eq, Hash)]
+pub struct St {
+    /// per cid: fill level reported at exchange time 1,2,3
+    cfg: Vec<[u8; 3]>,
+    orders: Vec<Option<Proj>>,
+}
+
+#[derive(Debug, Clone, Copy, PartialEq, Eq, Hash, Serialize, Deserialize)]
+pub enum Rep {
+    InFlight,
+    Open(u8),
+    Cancelled(u8),
+    FullyFilled,
+    Expired,
+    OpenFailed,
+}
+
+#[derive(Debug, Clone, PartialEq, Eq, Hash, Serialize, Deserialize)]
+pub enum Act {
+    OpenSent(usize),
+    CancelSent(usize),
+    Snap(usize, Rep),
+    CancelOk(usize),
+    CancelErr(usize),
+    /// full account snapshot carrying these order reports (layer b only)
+    Full(Vec<(usize, Rep)>),
+}
+
+#[derive(Clone, Copy, PartialEq, Eq)]
+pub enum Layer {
+    Orders,
+    Engine,
+}
+
+pub struct M {
+    layer: Layer,
+    n_cids: usize,
+    timelines: Vec<Vec<[u8; 3]>>, // initial configurations (one timeline per cid)
+    instruments: IndexedInstruments,
+}
+
+fn all_timelines() -> Vec<[u8; 3]> {
+    let mut v = Vec::new();
+    for a in 0..=QTY {
+        for b in a..=QTY {
+            for c in b..=QTY {
+                v.push([a, b, c]);
+            }
+        }
+    }
+    v
+}
+
+fn cid(i: usize) -> ClientOrderId {
+    ClientOrderId::new(format!("c{i}"))
+}
+fn oid(i: usize) -> OrderId {
+    OrderId::new(format!("o{i}"))
+}
+
+impl M {
+    pub fn new(layer: Layer, timelines_per_cid: &[Vec<[u8; 3]>]) -> Self {
+        let n_cids = timelines_per_cid.len();
+        // cartesian product of timelines
+        let mut cfgs: Vec<Vec<[u8; 3]>> = vec![vec![]];
+        for tl in timelines_per_cid {
+            let mut next = Vec::new();
+            for c in &cfgs {
+                for t in tl {
+                    let mut c2 = c.clone();
+                    c2.push(*t);
+                    next.push(c2);
+                }
+            }
+            cfgs = next;
+        }
+        let instruments = IndexedInstruments::builder()
+            .add_instrument(spot(EXCHANGES[0], "x0_btc_usdt", "BTCUSDT", "btc", "usdt"))
+            .add_instrument(spot(EXCHANGES[0], "x0_eth_usdt", "ETHUSDT", "eth", "usdt"))
+            .add_instrument(spot(EXCHANGES[1], "x1_btc_usdt", "XBT/USDT", "btc", "usdt"))
+            .build();
+        Self { layer, n_cids, timelines: cfgs, instruments }
+    }
+
+    /// (exchange, instrument) a cid lives on
+    fn home(&self, c: usize) -> (ExchangeIndex, InstrumentIndex) {
+        match self.layer {
+            Layer::Orders => (ExchangeIndex(0), InstrumentIndex(1)),
+            Layer::Engine => {
+                if c < 2 {
+                    (ExchangeIndex(0), InstrumentIndex(1))
+                } else {
+                    (ExchangeIndex(1), InstrumentIndex(2))
+                }
+            }
+        }
+    }
+
+    fn key(&self, c: usize) -> OrderKey {
+        let (exchange, instrument) = self.home(c);
+        OrderKey { exchange, instrument, strategy: strategy_id(), cid: cid(c) }
+    }
+
+    fn side(c: usize) -> Side {
+        if c % 2 == 0 { Side::Buy } else { Side::Sell }
+    }
+    fn price(c: usize) -> Decimal {
+        Decimal::from(100 + c as i64)
+    }
+
+    fn open_meta(&self, c: usize, t: u8, f: u8) -> Open {
+        Open { id: oid(c), time_exchange: t_plus(t as i64), filled_quantity: Decimal::from(f) }
+    }
+
+    fn active_order(&self, c: usize, p: &Proj) -> Order<ExchangeIndex, InstrumentIndex, ActiveOrderState> {
+        let state = match (p.kind, p.meta) {
+            (Kind::InFlight, _) => ActiveOrderState::OpenInFlight(OpenInFlight),
+            (Kind::Open, Some((t, f))) => ActiveOrderState::Open(self.open_meta(c, t, f)),
+            (Kind::Open, None) => unreachable!("Open without meta"),
+            (Kind::Cancelling, m) => ActiveOrderState::CancelInFlight(CancelInFlight {
+                order: m.map(|(t, f)| self.open_meta(c, t, f)),
+            }),
+        };
+        Order {
+            key: self.key(c),
+            side: Self::side(c),
+            price: Self::price(c),
+            quantity: Decimal::from(QTY),
+            kind: OrderKind::Limit,
+            time_in_force: TimeInForce::GoodUntilCancelled { post_only: false },
+            state,
+        }
+    }
+
+    fn snapshot_order(&self, c: usize, rep: Rep, cfg: &[[u8; 3]]) -> Order<ExchangeIndex, InstrumentIndex, OrderState<AssetIndex, InstrumentIndex>> {
+        let state = match rep {
+            Rep::InFlight => OrderState::active(OpenInFlight),
+            Rep::Open(t) => OrderState::active(self.open_meta(c, t, cfg[c][(t - 1) as usize])),
+            Rep::Cancelled(t) => OrderState::inactive(Cancelled { id: oid(c), time_exchange: t_plus(t as i64) }),
+            Rep::FullyFilled => OrderState::fully_filled(),
+            Rep::Expired => OrderState::expired(),
+            Rep::OpenFailed => OrderState::inactive(OrderError::Rejected(ApiError::OrderRejected("script".into()))),
+        };
+        Order {
+            key: self.key(c),
+            side: Self::side(c),
+            price: Self::price(c),
+            quantity: Decimal::from(QTY),
+            kind: OrderKind::Limit,
+            time_in_force: TimeInForce::GoodUntilCancelled { post_only: false },
+            state,
+        }
+    }
+
+    fn request_open(&self, c: usize) -> OrderRequestOpen {
+        OrderRequestOpen {
+            key: self.key(c),
+            state: RequestOpen {
+                side: Self::side(c),
+                price: Self::price(c),
+                quantity: Decimal::from(QTY),
+                kind: OrderKind::Limit,
+                time_in_force: TimeInForce::GoodUntilCancelled { post_only: false },
+            },
+        }
+    }
+    fn request_cancel(&self, c: usize) -> OrderRequestCancel {
+        OrderRequestCancel { key: self.key(c), state: RequestCancel { id: None } }
+    }
+    fn cancel_response(&self, c: usize, ok: bool) -> OrderResponseCancel {
+        OrderResponseCancel {
+            key: self.key(c),
+            state: if ok {
+                Ok(Cancelled { id: oid(c), time_exchange: t_plus(3) })
+            } else {
+                Err(OrderError::Rejected(ApiError::OrderRejected("script".into())))
+            },
+        }
+    }
+
+    /// project one real tracked order; also says whether its static fields are intact
+    fn project(&self, c: usize, o: &Order<ExchangeIndex, InstrumentIndex, ActiveOrderState>) -> (Proj, bool) {
+        let meta_of = |open: &Open| -> (u8, u8) {
+            let t = (open.time_exchange - t0()).num_seconds() as u8;
+            let f = open.filled_quantity.try_into().unwrap_or(255u8);
+            (t, f)
+        };
+        let (proj, id_ok) = match &o.state {
+            ActiveOrderState::OpenInFlight(_) => (Proj { kind: Kind::InFlight, meta: None }, true),
+            ActiveOrderState::Open(open) => (Proj { kind: Kind::Open, meta: Some(meta_of(open)) }, open.id == oid(c)),
+            ActiveOrderState::CancelInFlight(ci) => (
+                Proj { kind: Kind::Cancelling, meta: ci.order.as_ref().map(meta_of) },
+                ci.order.as_ref().is_none_or(|o| o.id == oid(c)),
+            ),
+        };
+        let intact = id_ok
+            && o.key == self.key(c)
+            && o.side == Self::side(c)
+            && o.price == Self::price(c)
+            && o.quantity == Decimal::from(QTY)
+            && o.kind == OrderKind::Limit
+            && o.time_in_force == TimeInForce::GoodUntilCancelled { post_only: false };
+        (proj, intact)
+    }
+
+    fn cid_index(&self, id: &ClientOrderId) -> Option<usize> {
+        (0..self.n_cids).find(|c| cid(*c) == *id)
+    }
+
+    /// Execute `a` on the real implementation rebuilt from `s`; return the per-cid projection after,
+    /// plus structural complaints (order under wrong instrument, unknown cid, damaged static fields).
+    fn execute(&self, s: &St, a: &Act) -> (Vec<Option<Proj>>, Vec<String>) {
+        let mut complaints = Vec::new();
+        let mut after: Vec<Option<Proj>> = vec![None; self.n_cids];
+        match self.layer {
+            Layer::Orders => {
+                let mut orders: Orders = Orders::default();
+                for (c, p) in s.orders.iter().enumerate() {
+                    if let Some(p) = p {
+                        orders.0.insert(cid(c), self.active_order(c, p));
+                    }
+                }
+                match a {
+                    Act::OpenSent(c) => orders.record_in_flight_open(&self.request_open(*c)),
+                    Act::CancelSent(c) => orders.record_in_flight_cancel(&self.request_cancel(*c)),
+                    Act::Snap(c, rep) => {
+                        let o = self.snapshot_order(*c, *rep, &s.cfg);
+                        orders.update_from_order_snapshot(Snapshot(&o))
+                    }
+                    Act::CancelOk(c) => orders.update_from_cancel_response::<AssetIndex>(&self.cancel_response(*c, true)),
+                    Act::CancelErr(c) => orders.update_from_cancel_response::<AssetIndex>(&self.cancel_response(*c, false)),
+                    Act::Full(_) => unreachable!(),
+                }
+                for (k, o) in orders.0.iter() {
+                    match self.cid_index(k) {
+                        Some(c) if o.key.cid == *k => {
+                            let (p, intact) = self.project(c, o);
+                            if !intact {
+                                complaints.push("static-fields-changed".into());
+                            }
+                            after[c] = Some(p);
+                        }
+                        _ => complaints.push("unknown-or-mismatched-cid-entry".into()),
+                    }
+                }
+            }
+            Layer::Engine => {
+                let mut state: EState = barter::engine::state::EngineState::builder(
+                    &self.instruments,
+                    DefaultGlobalData,
+                    DefaultInstrumentMarketData::default,
+                )
+                .time_engine_start(t0())
+                .trading_state(TradingState::Disabled)
+                .build();
+                for (c, p) in s.orders.iter().enumerate() {
+                    if let Some(p) = p {
+                        let (_, inst) = self.home(c);
+                        state.instruments.instrument_index_mut(&inst).orders.0.insert(cid(c), self.active_order(c, p));
+                    }
+                }
+                let ev = |c: usize, kind: AccountEventKind<ExchangeIndex, AssetIndex, InstrumentIndex>| AccountEvent {
+                    exchange: self.home(c).0,
+                    kind,
+                };
+                match a {
+                    Act::OpenSent(c) => state.record_in_flight_open(&self.request_open(*c)),
+                    Act::CancelSent(c) => state.record_in_flight_cancel(&self.request_cancel(*c)),
+                    Act::Snap(c, rep) => {
+                        let o = self.snapshot_order(*c, *rep, &s.cfg);
+                        let _ = state.update_from_account(&ev(*c, AccountEventKind::OrderSnapshot(Snapshot(o))));
+                    }
+                    Act::CancelOk(c) => {
+                        let _ = state.update_from_account(&ev(*c, AccountEventKind::OrderCancelled(self.cancel_response(*c, true))));
+                    }
+                    Act::CancelErr(c) => {
+                        let _ = state.update_from_account(&ev(*c, AccountEventKind::OrderCancelled(self.cancel_response(*c, false))));
+                    }
+                    Act::Full(items) => {
+                        // one AccountSnapshot per exchange present in `items` would be the realistic
+                        // shape; an exchange's snapshot only lists its own instruments.
+                        let mut by_exchange: std::collections::BTreeMap<usize, Vec<(usize, Rep)>> = Default::default();
+                        for (c, r) in items {
+                            by_exchange.entry(self.home(*c).0.0).or_default().push((*c, *r));
+                        }
+                        for (x, its) in by_exchange {
+                            let mut by_inst: std::collections::BTreeMap<usize, Vec<_>> = Default::default();
+                            for (c, r) in its {
+                                by_inst.entry(self.home(c).1.0).or_default().push(self.snapshot_order(c, r, &s.cfg));
+                            }
+                            let snap = AccountSnapshot {
+                                exchange: ExchangeIndex(x),
+                                balances: vec![],
+                                instruments: by_inst
+                                    .into_iter()
+                                    .map(|(i, orders)| InstrumentAccountSnapshot { instrument: InstrumentIndex(i), orders })
+                                    .collect(),
+                            };
+                            let _ = state.update_from_account(&AccountEvent { exchange: ExchangeIndex(x), kind: AccountEventKind::Snapshot(snap) });
+                        }
+                    }
+                }
+                for (i, (_, inst_state)) in state.instruments.0.iter().enumerate() {
+                    for (k, o) in inst_state.orders.0.iter() {
+                        match self.cid_index(k) {
+                            Some(c) if o.key.cid == *k => {
+                                if self.home(c).1 != InstrumentIndex(i) {
+                                    complaints.push("order-tracked-under-wrong-instrument".into());
+                                    continue;
+                                }
+                                let (p, intact) = self.project(c, o);
+                                if !intact {
+                                    complaints.push("static-fields-changed".into());
+                                }
+                                after[c] = Some(p);
+                            }
+                            _ => complaints.push("unknown-or-mismatched-cid-entry".into()),
+                        }
+                    }
+                }
+            }
+        }
+        (after, complaints)
+    }
+}
+
+fn kind_name(p: &Option<Proj>) -> &'static str {
+    match p {
+        None => "Untracked",
+        Some(Proj { kind: Kind::InFlight, .. }) => "OpenInFlight",
+        Some(Proj { kind: Kind::Open, .. }) => "Open",
+        Some(Proj { kind: Kind::Cancelling, meta: None }) => "CancelInFlight(None)",
+        Some(Proj { kind: Kind::Cancelling, meta: Some(_) }) => "CancelInFlight(Some)",
+    }
+}
+
+/// Abstract name of one per-cid input, for signatures.
+fn input_name(i: &In, cfg_c: &[u8; 3], prev: &Option<Proj>) -> String {
+    match i {
+        In::OpenSent => "OpenSent".into(),
+        In::CancelSent => "CancelSent".into(),
+        In::CancelOk => "CancelOk".into(),
+        In::CancelErr => "CancelErr".into(),
+        In::Rep(Rep::InFlight) => "Snap(OpenInFlight)".into(),
+        In::Rep(Rep::Open(t)) => {
+            let f = cfg_c[(*t - 1) as usize];
+            if f >= QTY {
+                return "Snap(Open,remaining=0)".into();
+            }
+            let rem = "remaining>0";
+            let rel = match prev.and_then(|p| p.meta) {
+                None => "no-held-data",
+                Some((t0, _)) if *t < t0 => "older",
+                Some((t0, _)) if *t == t0 => "same-time",
+                Some(_) => "newer",
+            };
+            format!("Snap(Open,{rem},{rel})")
+        }
+        In::Rep(Rep::Cancelled(_)) => "Snap(Cancelled)".into(),
+        In::Rep(Rep::FullyFilled) => "Snap(FullyFilled)".into(),
+        In::Rep(Rep::Expired) => "Snap(Expired)".into(),
+        In::Rep(Rep::OpenFailed) => "Snap(OpenFailed)".into(),
+    }
+}
+
+#[derive(Debug, Clone, Copy)]
+enum In {
+    OpenSent,
+    CancelSent,
+    Rep(Rep),
+    CancelOk,
+    CancelErr,
+}
+
+/// The statement as allowed-successor sets. Returns (rule name, allowed next projections).
+fn allowed(prev: &Option<Proj>, input: &In, cfg_c: &[u8; 3]) -> (&'static str, Vec<Option<Proj>>) {
+    let some = |kind, meta| Some(Proj { kind, meta });
+    match input {
+        // R1: tracked when a request for it is sent
+        In::OpenSent => ("R1-open-request-sent-tracks", vec![some(Kind::InFlight, None)]),
+        // R6: the in-flight recorder never resurrects or drops an id; keeps the confirmed open data
+        In::CancelSent => match prev {
+            None => ("R6-cancel-sent-on-untracked-is-noop", vec![None]),
+            Some(p) => ("R6-cancel-sent-marks-cancelling-keeps-open-data", vec![some(Kind::Cancelling, p.meta)]),
+        },
+        In::Rep(Rep::InFlight) => match prev {
+            // statement silent on whether an in-flight *report* starts tracking: both accepted
+            None => ("in-flight-report-on-untracked", vec![None, some(Kind::InFlight, None)]),
+            Some(p) => ("in-flight-report-changes-nothing", vec![Some(*p)]),
+        },
+        In::Rep(Rep::Open(t)) => {
+            let f = cfg_c[(*t - 1) as usize];
+            let m = Some((*t, f));
+            if f >= QTY {
+                // R2: an 'open' report with nothing left to fill untracks, whatever the state
+                return ("R2-open-report-with-nothing-left-untracks", vec![None]);
+            }
+            match prev {
+                None => ("R1-open-report-tracks", vec![some(Kind::Open, m)]),
+                Some(Proj { kind: Kind::InFlight, .. }) => ("R1-open-report-confirms-in-flight", vec![some(Kind::Open, m)]),
+                Some(Proj { kind: Kind::Open, meta: Some((t0, f0)) }) => {
+                    if *t < *t0 {
+                        ("R4-held-data-never-moves-back", vec![some(Kind::Open, Some((*t0, *f0)))])
+                    } else {
+                        ("R4-open-report-keeps-or-replaces", vec![some(Kind::Open, Some((*t0, *f0))), some(Kind::Open, m)])
+                    }
+                }
+                Some(Proj { kind: Kind::Open, meta: None }) => ("R1-open-report-tracks", vec![some(Kind::Open, m)]),
+                Some(Proj { kind: Kind::Cancelling, meta: None }) => {
+                    ("R3-open-report-while-cancelling-becomes-confirmed-data", vec![some(Kind::Cancelling, m)])
+                }
+                Some(Proj { kind: Kind::Cancelling, meta: Some((t0, f0)) }) => {
+                    if *t < *t0 {
+                        ("R4-held-data-never-moves-back", vec![some(Kind::Cancelling, Some((*t0, *f0)))])
+                    } else {
+                        ("R4-open-report-keeps-or-replaces", vec![some(Kind::Cancelling, Some((*t0, *f0))), some(Kind::Cancelling, m)])
+                    }
+                }
+            }
+        }
+        // R2: cancelled / fully filled / expired / failed report untracks
+        In::Rep(Rep::Cancelled(_)) | In::Rep(Rep::FullyFilled) | In::Rep(Rep::Expired) | In::Rep(Rep::OpenFailed) => {
+            ("R2-terminal-report-untracks", vec![None])
+        }
+        // R2: a confirmed cancel untracks
+        In::CancelOk => ("R2-cancel-confirmation-untracks", vec![None]),
+        // R3: a failed cancel restores the last exchange-confirmed open state
+        In::CancelErr => match prev {
+            Some(Proj { kind: Kind::Cancelling, meta: Some(m) }) => ("R3-failed-cancel-restores-confirmed-open", vec![some(Kind::Open, Some(*m))]),
+            // nothing confirmed yet: untrack (what the unit tests document) or back to in flight
+            Some(Proj { kind: Kind::Cancelling, meta: None }) => ("R3-failed-cancel-without-confirmed-data", vec![None, some(Kind::InFlight, None)]),
+            other => ("R3-failed-cancel-changes-nothing-otherwise", vec![*other]),
+        },
+    }
+}
+
+impl Model for M {
+    type State = St;
+    type Action = Act;
+
+    fn init(&self) -> Vec<St> {
+        self.timelines.iter().map(|cfg| St { cfg: cfg.clone(), orders: vec![None; self.n_cids] }).collect()
+    }
+
+    fn actions(&self, s: &St) -> Vec<Act> {
+        let mut v = Vec::new();
+        for c in 0..self.n_cids {
+            if s.orders[c].is_none() {
+                v.push(Act::OpenSent(c));
+            }
+            v.push(Act::CancelSent(c));
+            v.push(Act::Snap(c, Rep::InFlight));
+            for t in 1..=3u8 {
+                v.push(Act::Snap(c, Rep::Open(t)));
+            }
+            v.push(Act::Snap(c, Rep::Cancelled(1)));
+            v.push(Act::Snap(c, Rep::Cancelled(3)));
+            v.push(Act::Snap(c, Rep::FullyFilled));
+            v.push(Act::Snap(c, Rep::Expired));
+            v.push(Act::Snap(c, Rep::OpenFailed));
+            v.push(Act::CancelOk(c));
+            v.push(Act::CancelErr(c));
+        }
+        if self.layer == Layer::Engine {
+            let mini = [Rep::Open(1), Rep::Open(3), Rep::FullyFilled];
+            for c in 0..self.n_cids {
+                for r in mini {
+                    v.push(Act::Full(vec![(c, r)]));
+                }
+            }
+            for c1 in 0..self.n_cids {
+                for c2 in (c1 + 1)..self.n_cids {
+                    for r1 in mini {
+                        for r2 in mini {
+                            v.push(Act::Full(vec![(c1, r1), (c2, r2)]));
+                        }
+                    }
+                }
+            }
+        }
+        v
+    }
+
+    fn step(&self, s: &St, a: &Act, out: &mut Vec<Viol>) -> Option<St> {
+        let (after, complaints) = self.execute(s, a);
+        let layer = match self.layer {
+            Layer::Orders => "orders",
+            Layer::Engine => "engine",
+        };
+        for c in complaints {
+            out.push((format!("C01/{layer}/structure/{c}"), format!("state={:?} action={a:?}", s.orders)));
+        }
+        // per-cid inputs carried by this action
+        let inputs: Vec<(usize, In)> = match a {
+            Act::OpenSent(c) => vec![(*c, In::OpenSent)],
+            Act::CancelSent(c) => vec![(*c, In::CancelSent)],
+            Act::Snap(c, r) => vec![(*c, In::Rep(*r))],
+            Act::CancelOk(c) => vec![(*c, In::CancelOk)],
+            Act::CancelErr(c) => vec![(*c, In::CancelErr)],
+            Act::Full(items) => items.iter().map(|(c, r)| (*c, In::Rep(*r))).collect(),
+        };
+        let via = if matches!(a, Act::Full(_)) { "full-snapshot" } else { "single" };
+        for c in 0..self.n_cids {
+            match inputs.iter().find(|(ic, _)| *ic == c) {
+                Some((_, input)) => {
+                    let (rule, allow) = allowed(&s.orders[c], input, &s.cfg[c]);
+                    if !allow.contains(&after[c]) {
+                        let how = match (&after[c], allow.first()) {
+                            (Some(g), Some(Some(w))) if g.kind == w.kind => "wrong-held-data".to_string(),
+                            _ => format!("got={}", kind_name(&after[c])),
+                        };
+                        out.push((
+                            format!(
+                                "C01/{layer}/{rule}/{via}/({},{})/{how}",
+                                kind_name(&s.orders[c]),
+                                input_name(input, &s.cfg[c], &s.orders[c])
+                            ),
+                            format!(
+                                "cid=c{c} timeline={:?} before={:?} action={a:?} after={:?} allowed={:?}",
+                                s.cfg[c], s.orders[c], after[c], allow
+                            ),
+                        ));
+                    }
+                }
+                None => {
+                    // R5: reports about one order never change another (nor another instrument)
+                    if after[c] != s.orders[c] {
+                        out.push((
+                            format!("C01/{layer}/R5-other-order-untouched/{via}/{}->{}", kind_name(&s.orders[c]), kind_name(&after[c])),
+                            format!("cid=c{c} not addressed by action={a:?} but changed: before={:?} after={:?}", s.orders[c], after[c]),
+                        ));
+                    }
+                }
+            }
+        }
+        // continue from the implementation's state; an `Open` without data cannot be rebuilt -> prune
+        if after.iter().any(|p| matches!(p, Some(Proj { kind: Kind::Open, meta: None }))) {
+            return None;
+        }
+        // held data with a fill level outside the alphabet cannot be rebuilt faithfully -> report+prune
+        if after.iter().any(|p| matches!(p, Some(Proj { meta: Some((t, f)), .. }) if *t == 0 || *t > 3 || *f > QTY)) {
+            out.push((format!("C01/{layer}/structure/held-data-not-a-delivered-report"), format!("after={after:?} action={a:?}")));
+            return None;
+        }
+        Some(St { cfg: s.cfg.clone(), orders: after })
+    }
+
+    fn impl_hash(&self, s: &St) -> Option<u64> {
+        Some(hash_of(&s.orders))
+    }
+}
+
+fn models(ctx: &Ctx) -> Vec<(String, M, Option<usize>)> {
+    let all = all_timelines();
+    let few: Vec<[u8; 3]> = vec![[0, 0, 0], [0, 1, 2], [1, 1, 2], [0, 2, 2]];
+    let two: Vec<[u8; 3]> = vec![[0, 1, 1], [1, 2, 2]];
+    let mut v = Vec::new();
+    v.push(("orders/2cids/all-timelines".to_string(), M::new(Layer::Orders, &[all.clone(), all.clone()]), None));
+    match ctx.tier {
+        crate::core::Tier::Quick => {
+            v.push(("engine/3cids/rep-timelines".to_string(), M::new(Layer::Engine, &[all.clone(), few.clone(), two.clone()]), None));
+        }
+        crate::core::Tier::Thorough => {
+            v.push(("orders/3cids/rep-timelines".to_string(), M::new(Layer::Orders, &[all.clone(), few.clone(), few.clone()]), None));
+            v.push(("engine/3cids/all-timelines".to_string(), M::new(Layer::Engine, &[all.clone(), all.clone(), all.clone()]), None));
+        }
+    }
+    v
+}
+
+pub fn run(ctx: &Ctx) -> Outcome {
+    let mut parts = Vec::new();
+    let (mut states, mut transitions, mut max_depth, mut impl_states) = (0usize, 0u64, 0usize, 0usize);
+    let mut samples = Vec::new();
+    for (label, m, depth) in models(ctx) {
+        let st = bfs::run(ctx, &m, &label, depth, 20_000_000);
+        if !st.fixpoint {
+            eprintln!("MACHINERY: C01 BFS {label} did not reach its fixpoint (capped={})", st.capped);
+            std::process::exit(2);
+        }
+        states += st.states;
+        transitions += st.transitions;
+        max_depth = max_depth.max(st.max_depth);
+        impl_states += st.distinct_impl_states;
+        parts.push(json!({"model": label, "initial_configurations": m.timelines.len(), "states": st.states, "transitions": st.transitions,
+            "max_depth": st.max_depth, "fixpoint": st.fixpoint, "distinct_impl_states": st.distinct_impl_states,
+            "steps_with_oracle_violation": st.oracle_violation_steps}));
+        samples.extend(st.samples);
+    }
+    Outcome {
+        level: "model_checking",
+        coverage: json!({
+            "states": states,
+            "transitions": transitions,
+            "traces_validated_against_impl": transitions,
+            "max_depth": max_depth,
+            "fixpoint_reached": true,
+            "exhaustive": true,
+            "distinct_impl_states": impl_states,
+            "models": parts,
+            "samples": samples,
+            "rule": "BFS to fixpoint; every transition rebuilds the real Orders / EngineState from the canonical snapshot, applies one input through the public API and compares the per-cid projection with the allowed-successor set of the statement; all inputs offered in every state",
+        }),
+        assumptions: vec![
+            "client order ids are unique per order (OpenSent only offered while the id is untracked)".into(),
+            "exchange reports of one order follow a consistent timeline: fill level non-decreasing in exchange time (all 10 timelines over t in {1,2,3}, fill in {0,1,2} of quantity 2); any report may be delivered late, repeatedly, out of order".into(),
+            "CancelInFlight order snapshots (an engine-internal marker) are not part of the report alphabet".into(),
+        ],
+    }
+}
+
+pub fn replay(ctx: &Ctx, case: &Value) {
+    let label = case["label"].as_str().unwrap_or("");
+    // rebuild the model with the same initial configurations (both tiers' models are tried)
+    for tier in [crate::core::Tier::Quick, crate::core::Tier::Thorough] {
+        let c2 = Ctx::new(&ctx.prop, tier, ctx.seed);
+        for (l, m, _) in models(&c2) {
+            if l == label {
+                for (sig, detail) in bfs::replay(&m, case) {
+                    ctx.violate(sig, detail, case.clone());
+                }
+                return;
+            }
+        }
+    }
+    eprintln!("MACHINERY: unknown model label {label}");
+    std::process::exit(2);
 }
